@@ -20,6 +20,8 @@ for d in /verif/seeded/C*-*; do
     benign=$(python3 -c "import json;print(json.load(open('$d/meta.json')).get('verdict',''))" 2>/dev/null)
     if ! git -C $R apply --check $d/patch.diff 2>/dev/null; then echo "SKIP    $name (patch does not apply)"; continue; fi
     git -C $R apply $d/patch.diff
+    # make sure cargo sees the change (an mtime not newer than the previous build's would be taken as fresh)
+    sleep 1; (cd $R && git diff --name-only | xargs -r touch)
     out=$(cd $V && ./check quick $id 2>&1); rc=$?
     git -C $R checkout -q -- .
     n=$((n+1))
